@@ -2,6 +2,7 @@ mod conc;
 mod http;
 mod node;
 mod oplog;
+mod pending;
 mod seq;
 
 fn main() {
@@ -13,6 +14,7 @@ fn main() {
     let rest = &args[2..];
     match args[1].as_str() {
         "seq" => seq::main(rest),
+        "pending" => pending::main(rest),
         "oplog" => oplog::main(rest),
         "probe-load" => seq::probe_load(rest),
         "http" => http::main(rest),
